@@ -145,6 +145,13 @@ func (t *Teamserver) ListenerRemove(Name string) ([]*Listener, []packager.Packag
 	for i := range t.Listeners {
 		if t.Listeners[i].Name == Name {
 
+			// remove the listener from our database first: if that fails nothing has been stopped yet
+			err := t.DB.ListenerRemove(Name)
+			if err != nil {
+				logger.Error("Failed to remove listener: ", Name)
+				return t.Listeners, t.EventsList
+			}
+
 			switch t.Listeners[i].Config.(type) {
 			case *handlers.HTTP:
 				err := t.Listeners[i].Config.(*handlers.HTTP).Stop()
@@ -157,13 +164,6 @@ func (t *Teamserver) ListenerRemove(Name string) ([]*Listener, []packager.Packag
 
 			case *handlers.External:
 				t.EndpointRemove(t.Listeners[i].Config.(*handlers.External).Config.Endpoint)
-			}
-
-			// remove the listener from our database
-			err := t.DB.ListenerRemove(Name)
-			if err != nil {
-				logger.Error("Failed to remove listener: ", Name)
-				return t.Listeners, t.EventsList
 			}
 
 			t.Listeners = append(t.Listeners[:i], t.Listeners[i+1:]...)
